@@ -13,11 +13,15 @@ def spec(tier, seed):
                                      "for storage (AppConfig::assigned_buckets/assigned_partitions) iff the topology routes the partition to it (calculate_assigned_partitions)",
                           encodes=("AppConfig::assigned_buckets", "AppConfig::assigned_partitions", "AppConfig::node_count", "TopologyManager::calculate_assigned_partitions"),
                           bounds=f"N={n}, buckets={b} (all 24 pairs N<=4, B<=6 are instantiated; quick runs 6 of them), partitions <= {P['PMAX']}, rf <= {P['RMAX']}; unwind {P['UNW']}",
-                          timeout_s=900 if q else 1800, tiers=("quick", "thorough") if q else ("thorough",)))
+                          timeout_s=600 if q else 1800, tiers=("quick", "thorough") if q else ("thorough",)))
     hs.append(Harness("topo_vacuity_witness", expect_fail=True, obligation="twin", timeout_s=300))
     u = Unit("topo", _topo.generate, hs, jobs=4, workers=3)
-    return PropSpec("C13", [u],
+    def native_replay(rp, workroot):
+        from engine.core import replay_bin
+        return replay_bin("c13", [], crate="replay-cluster")
+
+    return PropSpec("C13", [u], native_replay=native_replay,
                     assumptions=["the placement-relevant cross-field rules of AppConfig::validate are restated in the harness (index < N, partitions >= N, partitions >= buckets, all non-zero)",
-                                 "HashMap/HashSet replaced by array-backed shims (capacity 8)", "explicit bucket.ids / partition.ids overrides are not used (None)"],
+                                 "HashSet<BucketId/PartitionId> replaced by a 64-bit bit set (ids < 64), HashMap by an array-backed shim", "explicit bucket.ids / partition.ids overrides are not used (None)"],
                     outside_claim=["clusters larger than the stated bounds ('sampled for large' is not done: no sampling in this technique)", "explicit id lists in the configuration", "main.rs wiring"],
                     trusted_base=["kani-compiler 0.68 / CBMC 6.11 / cadical", "the slicer", "mocks/shimmap"])
